@@ -160,11 +160,12 @@ def _worker(args):
     out = []
     for i in indices:
         run_seed = H(verif_seed, pid, i)
+        case = None
         try:
             case = mod.gen_case(run_seed, tier)
             res = run_one(mod, case)
         except HarnessError as e:
-            out.append({"i": i, "run_seed": run_seed, "harness_error": repr(e)})
+            out.append({"i": i, "run_seed": run_seed, "harness_error": repr(e) + " case=" + canon(case)[:1500]})
             continue
         except Exception as e:  # a crash of the harness itself (graphiq exceptions are caught inside run_case)
             out.append(
